@@ -37,6 +37,20 @@ func child(fallback string) {
 		}
 	}
 	fmt.Println("listener=" + l.Addr().String() + " exists=" + exists)
+	if len(os.Args) > 3 && os.Args[3] == "rebind" {
+		// a second service in the same process, after the activation variables were removed (what a supervisor library does once
+		// the socket has been taken): it must not see the old environment
+		os.Unsetenv("LISTEN_PID")
+		os.Unsetenv("LISTEN_FDS")
+		os.Unsetenv("LISTEN_FDNAMES")
+		svc2, _ := varlink.NewService("v", "p", "1", "u")
+		if err := svc2.Bind(context.Background(), os.Args[4]); err != nil {
+			fmt.Println("second=binderr:" + strings.ReplaceAll(err.Error(), " ", "_"))
+		} else if l2, _ := svc2.GetListener(); l2 != nil {
+			fmt.Println("second=" + l2.Addr().String())
+			l2.Close()
+		}
+	}
 	l.Close()
 }
 
@@ -132,7 +146,13 @@ func runCase(n int, line string) string {
 		// the address names another protocol than the inherited socket's: it is not to be inspected when activation succeeds
 		bindAddr = "tcp:127.0.0.1:0"
 	}
-	cmd := exec.Command("sh", "-c", pre+` exec "$0" "$@"`, os.Args[0], "child", bindAddr)
+	rebind := len(f) > 4 && f[4] == "rebind"
+	second := fmt.Sprintf("@vrf-act-2nd-%d-%d", os.Getpid(), n)
+	args := []string{os.Args[0], "child", bindAddr}
+	if rebind {
+		args = append(args, "rebind", "unix:"+second)
+	}
+	cmd := exec.Command("sh", append([]string{"-c", pre + ` exec "$0" "$@"`}, args...)...)
 	env := []string{"PATH=" + os.Getenv("PATH")}
 	if v, set := unesc(fds); set {
 		env = append(env, "LISTEN_FDS="+v)
@@ -147,6 +167,14 @@ func runCase(n int, line string) string {
 		return "childerr:" + strings.ReplaceAll(err.Error(), " ", "_")
 	}
 	res := strings.TrimSpace(string(out))
+	secondRes := ""
+	if i := strings.Index(res, "\nsecond="); i >= 0 {
+		secondRes = strings.TrimSpace(res[i+len("\nsecond="):])
+		res = strings.TrimSpace(res[:i])
+	}
+	if rebind && secondRes != second {
+		return "second-bind-after-unsetenv:" + strings.ReplaceAll(secondRes, " ", "_")
+	}
 	if !strings.HasPrefix(res, "listener=") {
 		return "child:" + res
 	}
